@@ -299,3 +299,28 @@ WITNESSES += [
    "void f(){ constexpr auto g = nm::utility::ct_digraph().add_node(0_ct, 7_ct).add_node(1_ct, 8_ct).add_node(2_ct, 9_ct).add_edge(0_ct, 2_ct).add_edge(1_ct, 2_ct).add_edge(0_ct, 2_ct); "
    "static_assert(decltype(g.size())::value == 3); static_assert(meta::len_v<decltype(g.out_edges())> == 2); static_assert(meta::len_v<decltype(g.out_edges(2_ct))> == 0); }"),
 ]
+
+# ---------------- C02: capacity carried by the result TYPE of shape functions over bounded operands that fill their capacity (the E1 component
+#                  c02d_capacity2 states the same for the kinds that fold)
+_CAP = "template <class R> constexpr size_t cap_of() { using T = meta::conditional_t<meta::is_maybe_v<R>, meta::get_maybe_type_t<R>, R>; if constexpr (meta::len_v<T> > 0) return meta::len_v<T>; else if constexpr (!meta::is_fail_v<decltype(meta::bounded_size_v<T>)>) return (size_t)meta::bounded_size_v<T>; else return (size_t)-1; }\n"
+def _cap(id, why, params, expr, need):
+    return W(id, "C02", "pass", why, _CAP + "void f(%s){ using R = decltype(%s); static_assert(cap_of<R>() >= %d, \"the result container is too small for the extents the function produces\"); }" % (params, expr, need))
+_SV = "nm::utl::static_vector<size_t,%d>&"
+WITNESSES += [
+ _cap("c02_cap_tile_bb_23", "shape_tile(shape bounded by 2, reps bounded by 3) can hold 3 extents", (_SV % 2) + " s, " + (_SV % 3) + " r", "nm::index::shape_tile(s, r)", 3),
+ _cap("c02_cap_tile_bb_32", "shape_tile(shape bounded by 3, reps bounded by 2) can hold 3 extents", (_SV % 3) + " s, " + (_SV % 2) + " r", "nm::index::shape_tile(s, r)", 3),
+ _cap("c02_cap_tile_fb_13", "shape_tile(fixed shape of 1, reps bounded by 3) can hold 3 extents", "nmtools_array<size_t,1>& s, " + (_SV % 3) + " r", "nm::index::shape_tile(s, r)", 3),
+ _cap("c02_cap_tile_fb_32", "shape_tile(fixed shape of 3, reps bounded by 2) can hold 3 extents", "nmtools_array<size_t,3>& s, " + (_SV % 2) + " r", "nm::index::shape_tile(s, r)", 3),
+ _cap("c02_cap_outer_bb_22", "shape_outer(bounded by 2, bounded by 2) can hold 4 extents", (_SV % 2) + " a, " + (_SV % 2) + " b", "nm::index::shape_outer(a, b)", 4),
+ _cap("c02_cap_outer_bb_13", "shape_outer(bounded by 1, bounded by 3) can hold 4 extents", (_SV % 1) + " a, " + (_SV % 3) + " b", "nm::index::shape_outer(a, b)", 4),
+ _cap("c02_cap_outer_fb_22", "shape_outer(fixed 2, bounded by 2) can hold 4 extents", "nmtools_array<size_t,2>& a, " + (_SV % 2) + " b", "nm::index::shape_outer(a, b)", 4),
+ _cap("c02_cap_outer_fb_13", "shape_outer(fixed 1, bounded by 3) can hold 4 extents", "nmtools_array<size_t,1>& a, " + (_SV % 3) + " b", "nm::index::shape_outer(a, b)", 4),
+ _cap("c02_cap_outer_bf_31", "shape_outer(bounded by 3, fixed 1) can hold 4 extents", (_SV % 3) + " a, nmtools_array<size_t,1>& b", "nm::index::shape_outer(a, b)", 4),
+ _cap("c02_cap_matmul_bb_32", "shape_matmul(bounded by 3, bounded by 2) can hold 3 extents", (_SV % 3) + " a, " + (_SV % 2) + " b", "nm::index::shape_matmul(a, b)", 3),
+ _cap("c02_cap_matmul_bb_23", "shape_matmul(bounded by 2, bounded by 3) can hold 3 extents", (_SV % 2) + " a, " + (_SV % 3) + " b", "nm::index::shape_matmul(a, b)", 3),
+ _cap("c02_cap_matmul_fb_23", "shape_matmul(fixed 2, bounded by 3) can hold 3 extents", "nmtools_array<size_t,2>& a, " + (_SV % 3) + " b", "nm::index::shape_matmul(a, b)", 3),
+ _cap("c02_cap_matmul_bf_32", "shape_matmul(bounded by 3, fixed 2) can hold 3 extents", (_SV % 3) + " a, nmtools_array<size_t,2>& b", "nm::index::shape_matmul(a, b)", 3),
+ _cap("c02_cap_bshape_bb_23", "broadcast_shape(bounded by 2, bounded by 3) can hold 3 extents", (_SV % 2) + " a, " + (_SV % 3) + " b", "nm::index::broadcast_shape(a, b)", 3),
+ _cap("c02_cap_kron_fb_13", "kron_dst_reshape(fixed 1, bounded by 3) can hold 3 extents", "nmtools_array<size_t,1>& a, " + (_SV % 3) + " b", "nm::index::kron_dst_reshape(a, b)", 3),
+ _cap("c02_cap_kron_bb_23", "kron_dst_reshape(bounded by 2, bounded by 3) can hold 3 extents", (_SV % 2) + " a, " + (_SV % 3) + " b", "nm::index::kron_dst_reshape(a, b)", 3),
+]
